@@ -441,7 +441,15 @@ func (e *Env) evalCall(x *ast.CallExpr) Value {
 	case "typeid":
 		need(1)
 		// typeid("go.uber.org/cff.PanicError*") by name
-		lit, ok := args[0].(*ast.BasicLit)
+		a0 := args[0]
+		for {
+			pe, isP := a0.(*ast.ParenExpr)
+			if !isP {
+				break
+			}
+			a0 = pe.X
+		}
+		lit, ok := a0.(*ast.BasicLit)
 		if !ok {
 			evalErr("typeid wants a string literal")
 		}
